@@ -84,7 +84,8 @@ def gen_pipelines(rng, tier, npipes=None, big=False, pool=None, p_enc=0.4):
                                     (2, 'buffered')] if rng.chance(0.85)
                                    else [(1, 'minimal'), (1, 'gzip'),
                                          (1, 'mmap'), (1, 'spooled'), (1, 'file'),
-                                         (1, 'gzipfile')])
+                                         (1, 'gzipfile'), (1, 'rawfile'),
+                                         (1, 'fdfile')])
 
         if r['stream'] == 'buffered':
             r['buf'] = rng.choice([1, 2, 7, 64, 8192])
